@@ -11,6 +11,14 @@ This file proves, for ALL states and thread ids, that the hand-written `GSync.st
 which C01 and C02 are proved) is exactly that meaning — up to the explicit correspondence `corr`
 between the graph's nodes and the model's program-counter constructors — and restates the headline
 theorems of C01/C02 for runs of the derived program.
+
+What the correspondence may and may not hide.  `dec pc` binds exactly the locals the constructor
+`pc` carries and leaves every other local UNBOUND; the interpreter fails (`none`) on reading an
+unbound local, and the obligation demands `some …`.  So the model forgetting a local at some
+program counter (e.g. `delta` once the counter update is done) is sound only as long as the code
+does not read it from there on — if an edit makes it read one, the obligation breaks.  `enc` is
+the inverse of `dec` (`enc_dec`) and `none` on every node that is not the pending operation of a
+model program counter, so a new visible operation cannot be absorbed either.
 -/
 namespace C01Tie
 open GSync GSyncCfg Generated.GoGSync
